@@ -316,6 +316,57 @@ def main(tier, seed):
         if n_viol == 0:
             v.violation(dict(property=PROP, broken='proof obligations do not check', info=info), tag='proof', no_input=True)
             n_viol += 1
+    import extract_consts
+    ci = extract_consts.write_and_check(PROP)
+    if ci['ok'] is False and n_viol == 0:
+        # search for a failing input: a document using a key / type / priority word that the documented format does not have
+        DOC = dict(contract_keys=['before', 'after', 'always'],
+                   transition_keys=['target', 'event', 'guard', 'action', 'contract', 'priority'],
+                   state_keys=['name', 'type', 'on entry', 'on exit', 'transitions', 'contract', 'initial', 'parallel states',
+                               'states', 'memory'],
+                   statechart_keys=['name', 'description', 'preamble', 'root state'],
+                   type_values=['final', 'shallow history', 'deep history'], priority_words=['high', 'low'])
+        import sismic.io
+        for kind, doc in DOC.items():
+            for extra in [x for x in ci['extracted'].get(kind, []) if x not in doc]:
+                base = {'statechart': {'name': 'd', 'root state': {'name': 'r', 'initial': 'a', 'states': [
+                    {'name': 'a', 'transitions': [{'target': 'b', 'event': 'e', 'contract': [{'before': 'True'}]}]}, {'name': 'b'}]}}}
+                a = base['statechart']['root state']['states'][0]
+                if kind == 'statechart_keys':
+                    base['statechart'][extra] = 'x'
+                elif kind == 'state_keys':
+                    a[extra] = 'x'
+                elif kind == 'transition_keys':
+                    a['transitions'][0][extra] = 'x'
+                elif kind == 'contract_keys':
+                    a['transitions'][0]['contract'][0] = {extra: 'True'}
+                elif kind == 'type_values':
+                    base['statechart']['root state']['states'][1]['type'] = extra
+                else:
+                    a['transitions'][0]['priority'] = extra
+                text = iofam.dump_yaml(base) if hasattr(iofam, 'dump_yaml') else None
+                try:
+                    import ruamel.yaml
+                    from io import StringIO
+                    if text is None:
+                        buf = StringIO()
+                        ruamel.yaml.YAML(typ='safe', pure=True).dump(base, buf)
+                        text = buf.getvalue()
+                    sismic.io.import_from_yaml(text)
+                    accepted = True
+                except Exception:  # noqa
+                    accepted = False
+                if accepted:
+                    v.violation(dict(property=PROP, clause='a document using %r (%s), which the documented format does not have, is '
+                                                            'accepted (C12_reject_unknown_key_* / unknown type / bad priority)' % (extra, kind),
+                                     yaml=text, how_to_replay='./check C12 --replay <this file>'), tag='undocumented_%s' % kind)
+                    n_viol += 1
+    if ci['ok'] is False and n_viol == 0:
+        v.violation(dict(property=PROP, broken='constants regenerated from the source (schema keys, type values, priority words and '
+                                               'values) no longer equal those the model and the theorems were written against, and no '
+                                               'run of this check misbehaved', obligations=ci['obligations'], extracted=ci['extracted'],
+                         log=ci['log']), tag='consts', no_input=True)
+        n_viol += 1
     cov = dict(
         obligations=info.get('obligations', 0), discharged=info.get('discharged', 0),
         checker_cmd='cd /verif/coq && make && coqc props/C12_Props.v (Print Assumptions); coqc gen/C12/cases_*.v',
@@ -332,6 +383,7 @@ def main(tier, seed):
         samples=[dict(faults=c[1]['faults'], implementation=c[1]['implementation'], yaml=(c[1]['yaml'] or '')[:400])
                  for c in cases[:40] if c[1]['faults'] and c[1]['faults'] != ['benign']][:2],
         source_blobs=repo_blob_ids(['sismic/io/yaml.py', 'sismic/io/datadict.py', 'sismic/model/statechart.py']),
+        regenerated_constants=dict(obligations=ci['obligations'], ok=ci['ok'], notes=ci['notes']),
         proof_info={k: info.get(k) for k in ('build_ok', 'ok', 'closed', 'axioms', 'forbidden_tokens', 'note', 'coqchk')})
     write_evidence(PROP, tier, seed, t0, cov,
                    ['fault classes as fixed in DESIGN.md section 6 (C12); YAML syntax errors and duplicate mapping keys are '
